@@ -115,3 +115,7 @@ chk("C01", "E1", "exploration",
     "deterministic simulation with an active adversary: real iroh Endpoints (real noq, real rustls with iroh's raw-public-key verifiers, resolver and name encoding) on the seeded SimNet; impostor iroh endpoints behind hijacked / competing addresses, and a bare noq::Endpoint on the same network whose hand-written rustls resolver, signer and verifiers forge the identity; every forgery has an honest control that really holds the key",
     "Seeded exploration of (network faults x scenario): the victim dials id K and K's address leads to K's holder, to an endpoint holding another key, to both, or to a raw QUIC server presenting another key's raw public key, K's public key signed by another key, garbage signatures (0..128 bytes), K's key plus an extra chain element (either order), an X.509-typed certificate or one of five tampered SubjectPublicKeyInfo encodings around K's key bytes; symmetrically a raw QUIC client with the same forgeries (or no certificate) dials an iroh endpoint. Oracle: connect(K) completes only against a peer holding K's secret key; every established connection's remote_id, on both sides, is a key the other side really holds; the honest controls do connect.",
     "The adversary is limited to what a rustls/noq peer with custom resolver/signer/verifier can emit. The TLS-name encode/decode clause is a pure function and only exercised incidentally (each dial encodes, the verifier decodes). ring's TLS randomness is not seeded.")
+chk("C25", "E1", "exploration",
+    "deterministic simulation: real iroh Endpoint and socket actor on a virtual clock with the probing replaced by scripted virtual-time durations (cfg seam, reporter lock held as in the real run); re-probe requests from Endpoint::network_change, relay-map edits and the real periodic timer; a schedule point between the run task's done signal and its end supplies the multi-threaded interleavings; oracle over the start/finish/request event log",
+    "Seeded exploration of request instants clustered inside runs and at their exact end, probe durations from 0 ms to beyond the 10 s report timeout, and 0..5 yields of the finishing run task after its done signal; oracle: report runs never overlap (start/finish alternate) and every update requested while a report was running is started before virtual time moves past the instant that run released the reporter.",
+    "net_report::Client::get_report itself is stubbed (scripted duration, default report). Thread interleavings are represented by yields at the named schedule point on a single-threaded executor.")
